@@ -817,6 +817,26 @@ Fixpoint replay (prop : N) (c : cfg) (s : st) (v : view) (t : taint) (h : list (
       end
   end.
 
+(* A known finding explains a violation only if the component model - which has the known defects - violates the
+   specification at the same step, given the same history so far: [confirm] re-evaluates the step check on the MODEL's
+   observation of step n.  A violation the model does not share is a new one, whatever the taints say. *)
+Fixpoint confirm (prop : N) (c : cfg) (s : st) (v : view) (h : list (op * obs)) (n : nat) : bool :=
+  match h with
+  | [] => true
+  | (o, ob) :: r =>
+      let '(s', outs) := stepx c s o ob (orc_for s o ob) in
+      match n with
+      | O =>
+          let m := obs_of_model s' outs in
+          match chk prop c v o {| ob_pkts := ob_pkts m; ob_fwds := ob_fwds m; ob_closed := ob_closed m; ob_drops := ob_drops m;
+                                  ob_snap := ob_snap m; ob_fault := ob_fault ob; ob_overlap := ob_overlap ob |} with
+          | Some _ => true
+          | None => false
+          end
+      | S n' => confirm prop c s' (view_step c v o ob) r n'
+      end
+  end.
+
 Definition nontrivial_for (prop : N) (h : list (op * obs)) : bool :=
   if prop =? 8 then existsb (fun x => match fst x with InPublish 2 _ _ _ _ => true | _ => false end) h
   else if prop =? 9 then existsb (fun x => match fst x with Reconnect _ _ _ _ => true | _ => false end) (tl h)
@@ -866,7 +886,10 @@ Definition qos_engine (prop : N) (v : val) : val :=
           let r := replay prop c init_st view0 taint0 h 0 true in
           let nt := nontrivial_for prop h in
           match rs_viol r with
-          | Some (vi, Some kf, n) => verdict 3 (clause_tag prop vi) nt [VB kf; VN (N.of_nat n); VN (vi_uid vi); VN (vi_pid vi)]
+          | Some (vi, Some kf, n) =>
+              if monitor_only cv || confirm prop c init_st view0 h n
+              then verdict 3 (clause_tag prop vi) nt [VB kf; VN (N.of_nat n); VN (vi_uid vi); VN (vi_pid vi)]
+              else verdict 1 (clause_tag prop vi) nt [VN (N.of_nat n); VN (vi_uid vi); VN (vi_pid vi); VN (vi_aux vi)]
           | Some (vi, None, n) => verdict 1 (clause_tag prop vi) nt [VN (N.of_nat n); VN (vi_uid vi); VN (vi_pid vi); VN (vi_aux vi)]
           | None => if rs_agree r || monitor_only cv then verdict 0 (tag "ok") nt []
                     else match repaired_finding prop c h with
